@@ -247,7 +247,7 @@ func vrtEBlock(height uint32, blockTime int64, entries []factom.Entry) *factom.E
 func VerifTxBlock() {
 	B := vrt.KeyAddress(1, false)
 	maxEntries := vrt.Param("maxentries", 1)
-	kindset := vrt.Param("kindset", 0) // 0: every kind; 1: replay / fresh transfer / fresh conversion only
+	kindset := vrt.Param("kindset", 0) // 0: every kind; 1: replay / fresh transfer / fresh conversion only; 2: those + garbage + wrong signer
 	faultMode := vrt.Param("fault", 0) == 1
 	height := vrt.U32("height")
 	vrt.Assume(height > specTxActivation && height < 1<<31-1)
@@ -316,6 +316,10 @@ func VerifTxBlock() {
 		var kind int
 		if kindset == 1 {
 			kind = vrt.Choose("kind3", 3)
+		} else if kindset == 2 {
+			// the three above plus the two simplest entries the daemon must ignore: how a block treats an
+			// entry must not depend on which other entries (decodable or not, authorised or not) precede it
+			kind = []int{ekReplay, ekTransfer, ekConversion, ekGarbage, ekWrongSigner}[vrt.Choose("kind5", 5)]
 		} else {
 			kind = vrt.Choose("kind", ekKinds)
 		}
